@@ -70,11 +70,10 @@ def dest_inv(h):
         ("D5.check_limit_wait", Implies_(eq(st.step, STEP.RECV_FILE_DATA_WITH_CHECK_LIMIT_HANDLING), And_(
             eq(m, UNACK), present(p.check_timer), present(fp.file_size_eof), 0 <= p.current_check_count,
             opt(p.remote_cfg, lambda rc: p.current_check_count < rc.check_limit, False)))),
-        ("D6.deferred", Implies_(B(ap.deferred_lost_segment_detection_active), And_(
-            eq(m, ACK), present(fp.file_size_eof),
-            opt(ap.procedure_timer, lambda t: And_(0 <= ap.nak_activity_counter, opt(
-                p.remote_cfg, lambda rc: ap.nak_activity_counter < rc.nak_timer_expiration_limit, False)), True)))),
-        ("D6.timer_only_deferred", opt(ap.procedure_timer, lambda t: B(ap.deferred_lost_segment_detection_active), True)),
+        ("D6.deferred", Implies_(B(ap.deferred_lost_segment_detection_active), And_(eq(m, ACK), present(fp.file_size_eof)))),
+        ("D6.nak_counter", And_(0 <= ap.nak_activity_counter, opt(
+            p.remote_cfg, lambda rc: ap.nak_activity_counter < rc.nak_timer_expiration_limit, True),
+            Implies_(isnone(ap.procedure_timer), ap.nak_activity_counter == 0))),
         ("D14.metadata_only_not_before_metadata", Implies_(step_is_(st, STEP.IDLE, STEP.WAITING_FOR_METADATA), Not_(B(fp.metadata_only)))),
         ("D7.counters", And_(fp.progress >= 0, ap.last_start_offset >= 0, ap.last_start_offset <= ap.last_end_offset)),
     ]
@@ -863,12 +862,29 @@ def trk(h):
     return h._params.acked_params.lost_seg_tracker.lost_segments.d
 
 
+def extent(h):
+    """extent of the file known so far: end of the furthest segment seen, or the EOF file size if that is larger"""
+    ap, fse = h._params.acked_params, h._params.fp.file_size_eof
+    le = to_z3_int(ap.last_end_offset)
+    if isinstance(fse, SOpt):
+        return z3.If(z3.And(z3.Not(fse.isnone), to_z3_int(fse.val) > le), to_z3_int(fse.val), le)
+    if fse is None:
+        return le
+    return z3.If(to_z3_int(fse) > le, to_z3_int(fse), le)
+
+
 def tracker_inv(h):
-    """D7: the tracker is well-formed and every tracked byte lies below the end of the furthest segment seen"""
+    """D7: the tracker is well-formed and every tracked byte lies inside the extent known so far"""
     ap = h._params.acked_params
     d = trk(h)
-    return z3.And(TR.tr_wf(d), z3.ForAll([TR.X], z3.Implies(TR.view(d, TR.X), z3.And(0 <= TR.X, TR.X < ap.last_end_offset))),
+    return z3.And(TR.tr_wf(d), z3.ForAll([TR.X], z3.Implies(TR.view(d, TR.X), z3.And(0 <= TR.X, TR.X < extent(h)))),
                   0 <= ap.last_start_offset, ap.last_start_offset <= ap.last_end_offset)
+
+
+def segments_tracked_up_to_last_end(h):
+    """while file data is being received the extent is the end of the furthest segment (no EOF yet, or the deferred
+    procedure has moved last_end_offset to the EOF file size)"""
+    return extent(h) == to_z3_int(h._params.acked_params.last_end_offset)
 
 
 REQ_TRK = [("DestInvTracker", lambda o: tracker_inv(o.self))]
@@ -927,7 +943,8 @@ LSH_MOD = ["self._params.acked_params.lost_seg_tracker.lost_segments", "self._pa
 
 C("_lost_segment_handling", arg_types={**SELF, "offset": T.Int, "data_len": T.Int}, props=("C06", "C10"), result=None,
   requires=REQ_INV + REQ_TRK + [("busy", lambda o: And_(ne(o.self.states.state, IDLE), Not_(isnone(o.self._params.remote_cfg)))),
-                                ("segment", lambda o: And_(o.offset >= 0, o.data_len >= 0))],
+                                ("segment", lambda o: And_(o.offset >= 0, o.data_len >= 0)),
+                                ("receiving_file_data", lambda o: segments_tracked_up_to_last_end(o.self))],
   modifies=LSH_MOD,
   ensures=[
       Clause("C06.gap_is_recorded_exactly", lambda o, n, r: Implies_(_lsh_gap(o), z3.ForAll([TR.X], TR.view(trk(n.self), TR.X) == z3.Or(
@@ -1003,7 +1020,8 @@ def _fd_pre(o):
 
 
 C("_handle_fd_pdu", arg_types={**SELF, "file_data_pdu": T.Obj(_FD)}, props=("C05", "C15", "C14", "C01"), result=None,
-  requires=REQ_INV + REQ_TRK + DEFAULT + [("receiving", _fd_pre)],
+  requires=REQ_INV + REQ_TRK + DEFAULT + [("receiving", _fd_pre),
+                                          ("receiving_file_data", lambda o: Implies_(eq(mode(o.self), ACK), segments_tracked_up_to_last_end(o.self)))],
   modifies=FD_MOD,
   ensures=[
       # C05: exactly one write, of this PDU's data at this PDU's offset, to the resolved destination path; nothing else
@@ -1038,3 +1056,350 @@ C("_handle_fd_pdu", arg_types={**SELF, "file_data_pdu": T.Obj(_FD)}, props=("C05
   ] + inv_clauses(("C05",)),
   raises=[RaiseClause("F5b.tracker_value_error_leaks", ValueError, when=lambda o: eq(mode(o.self), ACK), props=("C10",), modifies=FD_MOD)],
   effects={"vfs", "user", "fault_cb"}, modular=True)
+
+
+# ==============================================================================================
+# C04 / C06: deferred lost segment procedure (NAK sequences after the EOF PDU)
+# ==============================================================================================
+from spacepackets.cfdp import LargeFileFlag, CrcFlag  # noqa: E402
+
+
+def _ap(h):
+    return h._params.acked_params
+
+
+def _conf_hdr(c):
+    return 4 + c.source_entity_id.byte_len + c.dest_entity_id.byte_len + c.transaction_seq_num.byte_len
+
+
+def _w(c):
+    """bytes per offset field"""
+    return z3.If(to_z3_int(c.file_flag) == int(LargeFileFlag.LARGE), 8, 4)
+
+
+def _nak_len(c, nreq):
+    """encoded length of a NAK PDU with nreq segment requests (header, directive code, scope, requests, CRC)"""
+    return _conf_hdr(c) + 1 + 2 * _w(c) + nreq * 2 * _w(c) + z3.If(to_z3_int(c.crc_flag) == int(CrcFlag.WITH_CRC), 2, 0)
+
+
+def nak_cfg_valid(h):
+    """F11 (degenerate configuration) excluded: at least one segment request fits into a NAK PDU"""
+    c = h._params.pdu_conf
+    return And_(conf_wf(c), rcfg(h).max_packet_len >= _nak_len(c, 1))
+
+
+def _max_reqs(h):
+    c = h._params.pdu_conf
+    base = _conf_hdr(c) + 1 + z3.If(to_z3_int(c.crc_flag) == int(CrcFlag.WITH_CRC), 2, 0) + 2 * _w(c)
+    return (rcfg(h).max_packet_len - base) / (2 * _w(c))
+
+
+def _dl_nothing_missing(o):
+    return And_(trk(o.self).n == 0, Not_(B(_ap(o.self).metadata_missing)))
+
+
+def _dl_timer_state(o):
+    """(first issuance, expired)"""
+    t = _ap(o.self).procedure_timer
+    return isnone(t), opt(t, lambda x: B(x.expired), False)
+
+
+def _dl_limit_hit(o):
+    return _ap(o.self).nak_activity_counter + 1 == rcfg(o.self).nak_timer_expiration_limit
+
+
+def _dl_issues_naks(o):
+    first, expired = _dl_timer_state(o)
+    return And_(B(_ap(o.self).deferred_lost_segment_detection_active), Not_(_dl_nothing_missing(o)),
+                Or_(first, And_(expired, Not_(_dl_limit_hit(o)))))
+
+
+def _seq_at(h0, t):
+    """t-th element of ([(0,0)] if metadata is missing) ++ tracked ranges in ascending order"""
+    d = trk(h0)
+    m0 = z3.If(to_z3_bool(B(_ap(h0).metadata_missing)), 1, 0)
+    k = d.keys[t - m0]
+    return z3.If(t < m0, 0, k), z3.If(t < m0, 0, d.val[k])
+
+
+def _dl_loop_inv(I, pre, env, idx, n):
+    h0 = pre.self
+    R = TR._as_pl(env.next_segment_reqs)
+    m0 = z3.If(to_z3_bool(B(_ap(h0).metadata_missing)), 1, 0)
+    j = z3.Int("dl!j")
+    first = m0 + idx - R.n
+    sa = lambda t: _seq_at(h0, t)  # noqa: E731
+    return [
+        ("pending_at_most_max", And_(R.n >= 0, R.n <= env.max_segments_in_one_pdu, first >= 0)),
+        ("pending_is_next_chunk_of_the_sequence", z3.ForAll([j], z3.Implies(z3.And(0 <= j, j < R.n), z3.And(
+            R.a[j] == sa(first + j)[0], R.b[j] == sa(first + j)[1])))),
+        ("tracker_unchanged", TR.same_map(trk(env.self), trk(h0)) if trk(env.self) is not trk(h0) else True),
+        ("queue_counter", And_(to_z3_int(env.self.states._num_packets_ready) == env.self._pdus_to_be_sent.length())),
+    ]
+
+
+def _nak_is(p, h0, reqs_pl, nreq):
+    """NAK with scope (0, EOF file size) whose request list is the given pair list, and which fits the packet length"""
+    if p.cls is not NakPdu:
+        return False
+    items = p.segment_requests.items
+    c = h0._params.pdu_conf
+    same = (items is reqs_pl) if not isinstance(items, list) else False
+    if isinstance(items, list):
+        same = And_(len(items) == 0 or True, *[And_(Eq_(x[0], reqs_pl.a[i]), Eq_(x[1], reqs_pl.b[i])) for i, x in enumerate(items)],
+                    Eq_(reqs_pl.n, len(items)))
+    return And_(same, Eq_(p.start_of_scope, 0), Eq_(p.end_of_scope, val(h0._params.fp.file_size_eof)),
+                nreq >= 1, _nak_len(c, nreq) <= rcfg(h0).max_packet_len,
+                eq(p.pdu_conf.direction, Direction.TOWARDS_SENDER),
+                Eq_(p.pdu_conf.transaction_seq_num.value, c.transaction_seq_num.value))
+
+
+def _dl_body_post(I, pre, head, after, events, idx):
+    h0 = pre.self
+    pd = [e["pdu"] for e in events if e["kind"] == "pdu"]
+    if [e for e in events if e["kind"] in ("ind", "fault_cb", "vfs")]:
+        return [("only_nak_pdus", False)]
+    Rh, Ra = TR._as_pl(head.next_segment_reqs), TR._as_pl(after.next_segment_reqs)
+    item = _seq_at(h0, z3.If(to_z3_bool(B(_ap(h0).metadata_missing)), 1, 0) + idx)
+    if len(pd) == 0:
+        return [("appended", And_(Rh.n < head.max_segments_in_one_pdu, Ra.n == Rh.n + 1))]
+    if len(pd) != 1:
+        return [("at_most_one_nak_per_iteration", False)]
+    return [
+        ("full_list_is_flushed_as_one_nak", And_(Rh.n >= head.max_segments_in_one_pdu, _nak_is(pd[0], h0, Rh, Rh.n))),
+        ("then_restarts_with_current_range", And_(Ra.n == 1, Ra.a[0] == item[0], Ra.b[0] == item[1])),
+    ]
+
+
+DL_MOD = ["self._pdus_to_be_sent", "self.states._num_packets_ready", "self._params.pdu_conf.direction",
+          "self._params.acked_params.procedure_timer", "self._params.acked_params.procedure_timer.expired",
+          "self._params.acked_params.nak_activity_counter", "self._params.acked_params.deferred_lost_segment_detection_active",
+          "self.states.step", "self.states.state", "self._params.finished_params.delivery_code",
+          "self._params.finished_params.condition_code", "self._params.completion_disposition", "self._params"]
+
+
+def _dl_pre(o):
+    h = o.self
+    return And_(ne(h.states.state, IDLE), Not_(isnone(h._params.transaction_id)), Not_(isnone(h._params.remote_cfg)),
+                Implies_(B(_ap(h).deferred_lost_segment_detection_active), And_(
+                    nak_cfg_valid(h), step_is(h, STEP.WAITING_FOR_METADATA, STEP.WAITING_FOR_MISSING_DATA),
+                    Or_(_ck_trivial(o), Not_(isnone(h._params.fp.crc32))))))
+
+
+def _final_nak_ok(o, n):
+    """after the loop: the remainder (if any) is flushed as one more NAK"""
+    ps = emitted(n)
+    return ps
+
+
+C("_deferred_lost_segment_handling", arg_types=SELF, props=("C04", "C06"), result=None,
+  requires=REQ_INV + REQ_TRK + DEFAULT + [("deferred_step", _dl_pre)],
+  modifies=DL_MOD,
+  cond_frames=[
+      ("C04.nak.inactive_is_noop", lambda o: Not_(B(_ap(o.self).deferred_lost_segment_detection_active)), [], {"silent": True}),
+      ("C04.nak.timer_running_is_noop", lambda o: And_(
+          B(_ap(o.self).deferred_lost_segment_detection_active), Not_(_dl_nothing_missing(o)),
+          Not_(_dl_timer_state(o)[0]), Not_(_dl_timer_state(o)[1])), [], {"silent": True}),
+  ],
+  ensures=[
+      Clause("C06.nothing_missing_completes_without_nak", lambda o, n, r: Implies_(And_(
+          B(_ap(o.self).deferred_lost_segment_detection_active), _dl_nothing_missing(o)), And_(
+          len(emitted(n)) == 0, step_is(n.self, STEP.TRANSFER_COMPLETION),
+          Not_(B(_ap(n.self).deferred_lost_segment_detection_active)),
+          # C12/C14 (F2): a cancelled transaction keeps its condition; otherwise the file is verified now
+          Implies_(eq(o.self._params.completion_disposition, CANCELED), And_(
+              len(vfs_ops(n)) == 0, unchanged(o, n, "_params.finished_params.condition_code", "_params.finished_params.delivery_code"))),
+          Implies_(And_(ne(o.self._params.completion_disposition, CANCELED), Not_(_ck_trivial(o))),
+                   len(vfs_ops(n, "calculate_checksum")) == 1))), ("C06", "C12", "C01")),
+      Clause("C04.nak.limit_fault_exactly_at_limit", lambda o, n, r: Implies_(And_(
+          B(_ap(o.self).deferred_lost_segment_detection_active), Not_(_dl_nothing_missing(o)), _dl_timer_state(o)[1]), And_(
+          Implies_(_dl_limit_hit(o), And_(declared(n, CC.NAK_LIMIT_REACHED, "notice_of_cancellation_cb"), len(emitted(n)) == 0,
+                                          step_is(n.self, STEP.TRANSFER_COMPLETION), eq(n.self._params.completion_disposition, CANCELED),
+                                          eq(_fpar(n.self).condition_code, CC.NAK_LIMIT_REACHED))),
+          Implies_(Not_(_dl_limit_hit(o)), And_(
+              no_fault(n), _ap(n.self).nak_activity_counter == _ap(o.self).nak_activity_counter + 1,
+              len(timer_resets(n)) == 1, opt(_ap(n.self).procedure_timer, lambda t: Not_(B(t.expired)), False))))), ("C04", "C14")),
+      Clause("C04.nak.first_issuance_does_not_count", lambda o, n, r: Implies_(And_(
+          B(_ap(o.self).deferred_lost_segment_detection_active), Not_(_dl_nothing_missing(o)), _dl_timer_state(o)[0]), And_(
+          no_fault(n), unchanged(o, n, "_params.acked_params.nak_activity_counter"), len(timer_resets(n)) == 0,
+          opt(_ap(n.self).procedure_timer, lambda t: Not_(B(t.expired)), False))), ("C04",)),
+      Clause("C06.final_nak_flushes_the_remainder", lambda o, n, r: Implies_(_dl_issues_naks(o), (
+          (lambda ps: (len(ps) <= 1) and (True if len(ps) == 0 else _nak_is(
+              ps[0], o.self, TR._as_pl(ps[0].segment_requests), TR._as_pl(ps[0].segment_requests).n)))(emitted(n)))), ("C06",)),
+      Clause("C06.no_other_output", lambda o, n, r: len(inds(n)) == 0, ("C06",)),
+      Clause("inv.tracker", lambda o, n, r: Implies_(ne(n.self.states.state, IDLE), tracker_inv(n.self)), ("C06",)),
+  ] + inv_clauses(("C04",)),
+  loops={0: LoopSpec(_dl_loop_inv, modifies=["self._pdus_to_be_sent", "self.states._num_packets_ready",
+                                            "self._params.pdu_conf.direction"], props=("C06",),
+                     body_post=_dl_body_post, local_types={"next_segment_reqs": T.PairList})},
+  effects={"vfs", "timer", "fault_cb"}, modular=True)
+
+
+# ==============================================================================================
+# transactions that start without the Metadata PDU (acknowledged mode): C06 whole-extent re-request, C05 nothing written
+# ==============================================================================================
+def _busy_acked(o):
+    h = o.self
+    return And_(ne(h.states.state, IDLE), Not_(isnone(h._params.transaction_id)), Not_(isnone(h._params.remote_cfg)),
+                eq(mode(h), ACK), qempty(h))
+
+
+FDWM_MOD = ["self._params.fp.progress", "self._params.acked_params.lost_seg_tracker.lost_segments",
+            "self._params.acked_params.last_start_offset", "self._params.acked_params.last_end_offset",
+            "self._pdus_to_be_sent", "self.states._num_packets_ready", "self._params.pdu_conf.direction"]
+
+
+def _fdwm_len(o):
+    return o.fd_pdu.file_data.length()
+
+
+def _fdwm_end(o):
+    return o.fd_pdu.offset + _fdwm_len(o)
+
+
+C("_handle_fd_without_previous_metadata", arg_types={**SELF, "first_pdu": T.Bool, "fd_pdu": T.Obj(_FD)},
+  props=("C06", "C05"), result=None,
+  requires=REQ_INV + REQ_TRK + [("acked_busy", _busy_acked), ("pdu_wf", lambda o: pdu_wf(o.fd_pdu)),
+                                ("metadata_missing", lambda o: And_(B(_ap(o.self).metadata_missing), step_is(o.self, STEP.WAITING_FOR_METADATA))),
+                                # this PDU's extent was not recorded yet (findings F13 / grid assumption of property C06)
+                                ("extent_not_tracked", lambda o: Implies_(_fdwm_len(o) > 0, z3.ForAll([TR.X], z3.Implies(
+                                    z3.If(to_z3_bool(B(o.first_pdu)), 0, o.fd_pdu.offset) <= TR.X,
+                                    z3.Not(TR.view(trk(o.self), TR.X))))))],
+  modifies=FDWM_MOD,
+  ensures=[
+      Clause("C05.file_data_before_metadata_is_not_written", lambda o, n, r: len(vfs_ops(n)) == 0, ("C05",)),
+      Clause("C06.data_before_metadata_is_recorded_as_lost", lambda o, n, r: Implies_(_fdwm_len(o) > 0, And_(
+          z3.ForAll([TR.X], TR.view(trk(n.self), TR.X) == z3.Or(TR.view(trk(o.self), TR.X), z3.And(
+              z3.If(to_z3_bool(B(o.first_pdu)), 0, o.fd_pdu.offset) <= TR.X, TR.X < _fdwm_end(o)))),
+          n.self._params.acked_params.last_end_offset == _fdwm_end(o), n.self._params.acked_params.last_start_offset == _fdwm_end(o))), ("C06",)),
+      Clause("C06.metadata_rerequested_immediately", lambda o, n, r: And_(
+          Implies_(And_(B(rcfg(o.self).immediate_nak_mode), B(o.first_pdu), _fdwm_len(o) > 0),
+                   _one_nak(n, _fdwm_end(o), [(0, 0), (0, _fdwm_end(o))], o.self)),
+          Implies_(And_(B(rcfg(o.self).immediate_nak_mode), B(o.first_pdu), _fdwm_len(o) == 0),
+                   _one_nak(n, _fdwm_end(o), [(0, 0)], o.self)),
+          Implies_(And_(B(rcfg(o.self).immediate_nak_mode), Not_(B(o.first_pdu)), _fdwm_len(o) > 0),
+                   _one_nak(n, _fdwm_end(o), [(0, _fdwm_end(o))], o.self)),
+          Implies_(Or_(Not_(B(rcfg(o.self).immediate_nak_mode)), And_(Not_(B(o.first_pdu)), _fdwm_len(o) == 0)),
+                   len(emitted(n)) == 0)), ("C06",)),
+      Clause("C06.progress_is_end_of_this_segment", lambda o, n, r: n.self._params.fp.progress == _fdwm_end(o), ("C06",)),
+      Clause("C06.empty_segment_changes_no_bookkeeping", lambda o, n, r: Implies_(_fdwm_len(o) == 0, And_(
+          unchanged(o, n, "_params.acked_params.last_start_offset", "_params.acked_params.last_end_offset"),
+          TR.same_map(trk(n.self), trk(o.self)) if trk(n.self) is not trk(o.self) else True)), ("C06",)),
+      Clause("inv.tracker", lambda o, n, r: Implies_(isnone(o.self._params.fp.file_size_eof), tracker_inv(n.self)), ("C06", "C10")),
+      Clause("C15.no_indication_before_metadata", lambda o, n, r: len(inds(n)) == 0 and len(fault_cbs(n)) == 0, ("C15", "C05")),
+      Clause("queue.counter", lambda o, n, r: to_z3_int(n.self.states._num_packets_ready) == n.self._pdus_to_be_sent.length(), ("C06",)),
+  ],
+  effects=set(), modular=True)
+
+
+EOFWM_MOD = ["self._params.fp.progress", "self._params.fp.file_size_eof", "self._params.fp.crc32",
+             "self._params.acked_params.metadata_missing", "self._params.acked_params.lost_seg_tracker.lost_segments",
+             "self._pdus_to_be_sent", "self.states._num_packets_ready", "self.states.step", "self._params.pdu_conf.direction"]
+
+
+def _eofwm_ind_ok(o, n):
+    sw = B(o.self.cfg.indication_cfg.eof_recv_indication_required)
+    es = inds(n, "eof_recv_indication")
+    if len(es) == 0:
+        return Not_(sw)
+    if len(es) != 1 or len(inds(n)) != 1:
+        return False
+    return And_(sw, tid_eq(es[0]["args"][0], val(o.self._params.transaction_id)))
+
+
+C("_handle_eof_without_previous_metadata", arg_types={**SELF, "eof_pdu": T.Obj(EofPdu)}, props=("C06", "C05", "C15", "C01"), result=None,
+  requires=REQ_INV + REQ_TRK + [("acked_busy", _busy_acked), ("pdu_wf", lambda o: pdu_wf(o.eof_pdu)),
+                                ("waiting_for_metadata", lambda o: step_is(o.self, STEP.WAITING_FOR_METADATA))],
+  modifies=EOFWM_MOD,
+  ensures=[
+      Clause("C01.eof_fields_stored", lambda o, n, r: And_(
+          opt(n.self._params.fp.crc32, lambda c: Eq_(c, o.eof_pdu.file_checksum), False),
+          opt(n.self._params.fp.file_size_eof, lambda s: Eq_(s, o.eof_pdu.file_size), False),
+          n.self._params.fp.progress == o.eof_pdu.file_size), ("C01",)),
+      Clause("C06.whole_file_rerequested", lambda o, n, r: And_(
+          B(_ap(n.self).metadata_missing),
+          Implies_(o.eof_pdu.file_size > 0, z3.ForAll([TR.X], TR.view(trk(n.self), TR.X) == z3.And(0 <= TR.X, TR.X < o.eof_pdu.file_size))),
+          Implies_(o.eof_pdu.file_size == 0, z3.ForAll([TR.X], TR.view(trk(n.self), TR.X) == TR.view(trk(o.self), TR.X)))), ("C06",)),
+      Clause("C15.eof_recv_indication", lambda o, n, r: _eofwm_ind_ok(o, n), ("C15",)),
+      Clause("C03.eof_is_acknowledged", lambda o, n, r: _eof_ack_emitted(o, n), ("C03", "C02")),
+      Clause("C03.next_step_sends_the_eof_ack", lambda o, n, r: And_(
+          step_is(n.self, STEP.SENDING_EOF_ACK_PDU), n.self._pdus_to_be_sent.length() == o.self._pdus_to_be_sent.length() + 1), ("C03", "C02")),
+      Clause("C05.nothing_written", lambda o, n, r: len(vfs_ops(n)) == 0 and len(fault_cbs(n)) == 0, ("C05",)),
+      Clause("queue.counter", lambda o, n, r: to_z3_int(n.self.states._num_packets_ready) == n.self._pdus_to_be_sent.length(), ("C06",)),
+      Clause("inv.tracker", lambda o, n, r: Implies_(Or_(o.eof_pdu.file_size > 0, isnone(o.self._params.fp.file_size_eof)),
+                                                     tracker_inv(n.self)), ("C06", "C10")),
+  ],
+  effects={"user"}, modular=True)
+
+
+# ==============================================================================================
+# C03: waiting for the missing Metadata PDU (deferred procedure stays serviced; progress resets the NAK count)
+# ==============================================================================================
+WMM_MOD = sorted(set(MD_MOD + FDWM_MOD + EOFWM_MOD + ["self._params.acked_params.nak_activity_counter",
+                                                     "self._params.acked_params.procedure_timer.expired"]))
+
+
+def _wmm_pre(o):
+    h = o.self
+    return And_(_busy_acked(o), step_is(h, STEP.WAITING_FOR_METADATA), B(_ap(h).metadata_missing), pdu_wf(_hp(o)),
+                Implies_(B(_ap(h).deferred_lost_segment_detection_active), Not_(isnone(_ap(h).procedure_timer))))
+
+
+def _hp(o):
+    p = o.packet_holder.pdu
+    return val(p) if isinstance(p, SOpt) else p
+
+
+def _hp_is(o, cls):
+    p = _hp(o)
+    return p is not None and p.cls is cls
+
+
+from spacepackets.cfdp.pdu import PduHolder as _PH  # noqa: E402
+
+DEST_ADMITTED = T.OneOf([_FD, MetadataPdu, EofPdu, AckPdu, PromptPdu], allow_none=True)
+
+
+def _dest_holder_setup(interp, roots):
+    """any PDU kind the destination admission check lets through (see its contract), or nothing"""
+    roots["packet_holder"].f["pdu"] = interp.fresh_value(DEST_ADMITTED, "packet")
+    p = roots["packet_holder"].f["pdu"]
+    if p is not None and p.cls is MetadataPdu:
+        for k in ("source_file_name", "dest_file_name"):
+            p.f[k] = interp.force(p.f[k])
+
+
+def _deferred(h):
+    return B(_ap(h).deferred_lost_segment_detection_active)
+
+
+C("_handle_waiting_for_missing_metadata", arg_types={**SELF, "packet_holder": T.Obj(_PH)}, setup=_dest_holder_setup,
+  props=("C03", "C04", "C06", "C10"), result=None,
+  requires=REQ_INV + REQ_TRK + DEFAULT + [("waiting_for_metadata", _wmm_pre),
+            ("names_together", lambda o: (_hp(o).dest_file_name is None) == (_hp(o).source_file_name is None) if _hp_is(o, MetadataPdu) else True),
+            # F13: a File Data PDU arriving here when ranges are already tracked re-keys the entry at 0 (known finding)
+            ("extent_not_tracked", lambda o: (Implies_(_hp(o).file_data.length() > 0, z3.ForAll([TR.X], z3.Implies(
+                0 <= TR.X, z3.Not(TR.view(trk(o.self), TR.X)))))
+                if _hp_is(o, _FD) else True))],
+  modifies=WMM_MOD,
+  cond_frames=[("C10.other_pdus_are_ignored", lambda o: True if not (_hp_is(o, _FD) or _hp_is(o, MetadataPdu) or _hp_is(o, EofPdu)) else False,
+                [], {"silent": True})],
+  ensures=[
+      # F3: once the EOF has started the deferred procedure, the late Metadata PDU must leave the handler in a step in
+      # which that procedure keeps being run
+      Clause("C03.deferred_procedure_stays_serviced", lambda o, n, r: Implies_(And_(ne(n.self.states.state, IDLE), _deferred(n.self)),
+             step_is(n.self, STEP.WAITING_FOR_METADATA, STEP.WAITING_FOR_MISSING_DATA, STEP.TRANSFER_COMPLETION, STEP.SENDING_EOF_ACK_PDU)), ("C03",)),
+      Clause("C04.nak.received_metadata_or_eof_resets_the_count", lambda o, n, r: (
+          Implies_(And_(_deferred(o.self), ne(n.self.states.state, IDLE)), And_(
+              _ap(n.self).nak_activity_counter == 0, opt(_ap(n.self).procedure_timer, lambda t: Not_(B(t.expired)), False)))
+          if (_hp_is(o, MetadataPdu) or _hp_is(o, EofPdu)) else True), ("C04",)),
+      Clause("C06.file_data_keeps_whole_extent_requested", lambda o, n, r: (
+          Implies_(_hp(o).file_data.length() > 0, z3.ForAll([TR.X], TR.view(trk(n.self), TR.X) == z3.Or(
+              TR.view(trk(o.self), TR.X), z3.And(0 <= TR.X, TR.X < _hp(o).offset + _hp(o).file_data.length()))))
+          if _hp_is(o, _FD) else True), ("C06",)),
+      Clause("C03.metadata_ends_the_wait", lambda o, n, r: (
+          Implies_(ne(n.self.states.state, IDLE), And_(Not_(B(_ap(n.self).metadata_missing)), Not_(step_is(n.self, STEP.WAITING_FOR_METADATA))))
+          if _hp_is(o, MetadataPdu) else True), ("C03", "C02")),
+  ] + inv_clauses(("C03",)),
+  raises=[RaiseClause("vfs.truncate_race", FileNotFoundError, when=lambda o: _hp_is(o, MetadataPdu), props=("C10",), modifies=WMM_MOD)],
+  effects={"vfs", "user", "fault_cb", "timer"}, modular=True)
